@@ -110,3 +110,24 @@ Definition rt_ok (c: js * string) : bool :=
   | NOut => true
   end.
 Definition rt_out (c: js * string) : bool := match norm (fst c) with NOut => false | _ => true end.
+
+(* debugging aid: the model's documents for a case *)
+Definition corr_dump (c: mcase) : list string :=
+  let '(ER, pctx, (ar, D, p), (wd, wu), builder, roots, exp_docs, exp_defs, exp_rec) := c in
+  let E := digest_tab ER in
+  match ctx_for builder wd pctx ar D p with
+  | Ok ctx =>
+      match cfg_of_ctx ctx with
+      | Some cfg =>
+          if builder
+          then match build_seq E cfg 8 roots [] with
+               | SOk (ds, st) => (map canon ds ++ map (fun kv => canon (snd kv)) st)%list
+               | SFuel => ["FUEL"] | SErr => ["ERR"] end
+          else match roots with
+               | [t] => match build E cfg 8 wd (if wu then uri_of ctx else None) t [] with
+                        | SOk (d, st) => (canon d :: map (fun kv => canon (snd kv)) st)%list
+                        | SFuel => ["FUEL"] | SErr => ["ERR"] end
+               | _ => ["?"] end
+      | None => ["nocfg"] end
+  | Raise _ => ["raise"]
+  end.
